@@ -371,9 +371,9 @@ func chainRunOnce(s *Summary, c *chainCase, sp chainSplit, outerPrefix string, c
 			opts = append(opts, rux.HandleMethodNotAllowed)
 		}
 		if cachedDyn {
-			opts = append(opts, rux.CachingWithNum(2))
+			opts = append(opts, cachingOpts(2)...)
 		}
-		r = rux.New(opts...)
+		r = newRouter(opts...)
 		switch c.Kind {
 		case "route":
 			mw := hs[:n-1]
